@@ -199,6 +199,8 @@ class Case:
                 w = w * (3.0 / mz)
         if self.fit_intercept:
             b = rng.standard_normal(shape[1:]) * (0 if kind == "zero" else 0.5)
+            if self.spec.get("intercept_start") is not None and kind != "zero":
+                b = b * 0 + float(self.spec["intercept_start"])      # far out, on a flat side of a saturating loss
             coef = np.vstack([w, np.atleast_1d(b)[None, :]]) if multi else np.r_[w, b]
         else:
             b = 0.0
